@@ -132,12 +132,12 @@ var maxMel = func() *big.Int {
 
 // refBalances computes, for address a on snapshot s, f(tip) for every tip.
 func (w *World) refBalances(s *Snap, a string) (vals []*big.Int, gross []*big.Int) {
-	stored := map[Hash]*accountant.Vertex{}
-	for h, sv := range s.Stored {
-		stored[h] = &sv.V
+	// "checkpointed funds" are what the node has checkpointed for the address; that they equal
+	// the net flow of the stored vertices is C07's clause, judged separately.
+	ck := new(big.Int)
+	if f, ok := s.Funds[a]; ok {
+		ck = melVal(f)
 	}
-	cin, cout := flows(a, stored)
-	ck := new(big.Int).Sub(cin, cout)
 	for _, l := range s.Leaves {
 		h, ok := idHash(l)
 		if !ok {
@@ -186,9 +186,31 @@ func (w *World) probeBalances(n *Node, extra []string) {
 	ctx := context.Background()
 	sum := new(big.Int)
 	sumOK := len(before.Leaves) == 1
+	cur := before
+	curD := snapDigest(cur)
 	for _, a := range addrs {
-		vals, gross := w.refBalances(before, a)
 		bal, err := n.Book.CalculateBalance(ctx, a)
+		// the answer is judged against a snapshot only if the ledger did not move around the query
+		stable := false
+		for try := 0; try < 3; try++ {
+			s1 := w.snapshot(n)
+			if s1 == nil {
+				break
+			}
+			d1 := snapDigest(s1)
+			if d1 == curD {
+				stable = true
+				break
+			}
+			cur, curD = s1, d1
+			bal, err = n.Book.CalculateBalance(ctx, a)
+		}
+		if !stable {
+			w.probe("c06-query-not-judged-ledger-moving")
+			sumOK = false
+			continue
+		}
+		vals, gross := w.refBalances(cur, a)
 		w.probe("c06-balance-queries")
 		if err != nil {
 			ok := false
@@ -217,10 +239,10 @@ func (w *World) probeBalances(n *Node, extra []string) {
 		}
 		if !match {
 			cause := "balance-differs-from-reference"
-			if len(before.Stored) > 0 {
+			if len(cur.Stored) > 0 {
 				cause = "balance-differs-from-reference-after-truncation"
 			}
-			w.violate("C06", "balance", cause, n.Idx, "address %s got %s ref %v tips %d", a[:8], got, vals, len(before.Leaves))
+			w.violate("C06", "balance", cause, n.Idx, "address %s got %s ref %v tips %d", a[:8], got, vals, len(cur.Leaves))
 		}
 		if a != before.Genesis {
 			sum.Add(sum, got)
@@ -235,7 +257,7 @@ func (w *World) probeBalances(n *Node, extra []string) {
 		w.violate("C06", "purity", "balance-query-changed-ledger", n.Idx, "digest %s -> %s", snapDigest(before), snapDigest(after))
 	}
 	// C02 supply clause on a single-tip ledger with every vertex but the tip confirmed
-	if sumOK && len(before.Trusted) == 0 {
+	if sumOK && len(before.Trusted) == 0 && curD == snapDigest(before) {
 		conf := before.confirmed()
 		allv := map[Hash]*accountant.Vertex{}
 		for h, sv := range before.Live {
@@ -281,9 +303,14 @@ func (w *World) doTruncate(n *Node, res *StepResult) {
 				bal0[a] = "err"
 			}
 		}
+		if sb := w.snapshot(n); sb != nil && snapDigest(sb) != snapDigest(s0) {
+			single = false // the ledger moved while the balances were read
+			s0 = sb
+		}
 	}
 	var terr error
 	var r StepResult
+	callMark := len(w.AccCalls)
 	w.spawnOp(fmt.Sprintf("n%d:truncate", n.Idx), n, &r, func(c context.Context) error {
 		terr = n.Book.VerifTruncate(c)
 		return terr
@@ -298,10 +325,25 @@ func (w *World) doTruncate(n *Node, res *StepResult) {
 		return
 	}
 	w.checkSnap(s1)
+	// comparisons that assume nothing but the truncation touched this ledger are made only then
+	alone := len(s0.Parked) == 0 && len(s1.Parked) == 0
+	for _, c := range w.AccCalls[callMark:] {
+		if c.Node == n.Idx {
+			alone = false
+		}
+	}
+	for h := range s1.Live {
+		if _, was := s0.Live[h]; !was {
+			alone = false // something was admitted meanwhile (gossip, orphan retry)
+		}
+	}
+	if !alone {
+		w.probe("c07-truncation-raced-with-other-admissions")
+	}
 	if terr != nil {
 		w.probe("c07-truncate-failed")
-		if snapDigest(s0) != snapDigest(s1) {
-			w.violate("C07", "failed-truncate", "failed-truncation-changed-ledger", n.Idx, "err %v", terr)
+		if alone && snapDigest(s0) != snapDigest(s1) {
+			w.violate("C07", "failed-truncate", "failed-truncation-changed-ledger", n.Idx, "err %v; changed: %s", terr, snapDiff(s0, s1))
 		}
 		return
 	}
@@ -371,15 +413,53 @@ func (w *World) doTruncate(n *Node, res *StepResult) {
 	}
 	// (3) checkpoint funds = net flow of everything stored, each once
 	w.checkCheckpointFunds(s1)
+	if !alone {
+		return
+	}
+	if w.storedOverdrawn(s1) {
+		w.probe("c07-balance-clause-skipped-stored-set-overdrawn")
+		return
+	}
 	// (4) balances unchanged on a single-tip ledger
 	if single && len(s1.Leaves) == 1 {
+		bal1 := map[string]string{}
 		for _, a := range w.WAddr {
-			b1 := "err"
+			bal1[a] = "err"
 			if b, err := n.Book.CalculateBalance(ctx, a); err == nil {
-				b1 = melVal(b.Spice).String()
+				bal1[a] = melVal(b.Spice).String()
 			}
+		}
+		if sx := w.snapshot(n); sx == nil || snapDigest(sx) != snapDigest(s1) {
+			w.probe("c07-balance-clause-not-judged-ledger-moving")
+			return
+		}
+		for _, a := range w.WAddr {
+			b1 := bal1[a]
 			if b1 != bal0[a] {
-				w.violate("C07", "balance", "balance-changed-by-truncation", n.Idx, "address %s %s -> %s", a[:8], bal0[a], b1)
+				st := map[Hash]*accountant.Vertex{}
+				for h, sv := range s1.Stored {
+					st[h] = &sv.V
+				}
+				lv := map[Hash]*accountant.Vertex{}
+				for h, sv := range s1.Live {
+					lv[h] = &sv.V
+				}
+				lv0 := map[Hash]*accountant.Vertex{}
+				for h, sv := range s0.Live {
+					lv0[h] = &sv.V
+				}
+				si, so := flows(a, st)
+				li, lo := flows(a, lv)
+				bi, bo := flows(a, lv0)
+				if f0, ok := s0.Funds[a]; ok {
+					bi = new(big.Int).Add(bi, melVal(f0))
+				}
+				if bal0[a] == "err" && (bi.Cmp(maxMel) >= 0 || bo.Cmp(maxMel) >= 0) {
+					// the only tolerated deviation: an error while a gross sum is not representable
+					w.probe("c07-balance-error-before-truncation-gross-overflow")
+					continue
+				}
+				w.violate("C07", "balance", "balance-changed-by-truncation", n.Idx, "address %s %s -> %s; funds record %v; stored in/out %s/%s; live in/out %s/%s; live-before in/out %s/%s; moved %d live %d->%d tips %v->%v", a[:8], bal0[a], b1, s1.Funds[a], si, so, li, lo, bi, bo, len(moved), len(s0.Live), len(s1.Live), len(s0.Leaves), len(s1.Leaves))
 			}
 		}
 	}
@@ -402,13 +482,62 @@ func (w *World) doTruncate(n *Node, res *StepResult) {
 				w.violate("C07", "resubmit", "checkpointed-transaction-accepted-again", n.Idx, "trx %s", hx(t.Hash))
 			}
 		}
-		if s2 := w.snapshot(n); s2 != nil && snapDigest(s2) != d0 {
-			w.violate("C07", "resubmit", "refused-resubmission-changed-ledger", n.Idx, "vertex %s", hx(h))
+		quiet := true
+		for _, c := range w.AccCalls[callMark:] {
+			if c.Node == n.Idx {
+				quiet = false
+			}
+		}
+		s2 := w.snapshot(n)
+		if s2 != nil {
+			for h2 := range s2.Live {
+				if _, was := s1.Live[h2]; !was && h2 != h {
+					quiet = false
+				}
+			}
+		}
+		if quiet && s2 != nil && len(s2.Parked) == 0 && snapDigest(s2) != d0 {
+			w.violate("C07", "resubmit", "refused-resubmission-changed-ledger", n.Idx, "vertex %s; changed: %s", hx(h), snapDiff(s1, s2))
 		}
 	}
 }
 
+// storedOverdrawn reports whether some wallet other than the genesis issuer has spent more
+// than it received within the stored vertices: the ledger already breaks C02 (two branches
+// spending the same funds were merged, or the trusted exemption was used) and no
+// checkpoint can represent that wallet's funds.
+func (w *World) storedOverdrawn(s *Snap) bool {
+	stored := map[Hash]*accountant.Vertex{}
+	addrs := map[string]bool{}
+	gi := ""
+	for h, sv := range s.Stored {
+		stored[h] = &sv.V
+		if isGenesisShape(&sv.V) {
+			gi = sv.V.Transaction.IssuerAddress
+		}
+		if isTransfer(&sv.V.Transaction) {
+			addrs[sv.V.Transaction.IssuerAddress] = true
+		}
+	}
+	for a := range addrs {
+		if a == gi {
+			continue
+		}
+		in, out := flows(a, stored)
+		if in.Cmp(out) < 0 {
+			return true
+		}
+	}
+	return false
+}
+
 func (w *World) checkCheckpointFunds(s *Snap) {
+	if len(s.Trusted) > 0 || len(w.Cfg.Trusted) > 0 {
+		// under the trusted-node exemption a wallet's net flow can be negative, which no
+		// checkpoint can represent; the clause is judged on ledgers without the exemption
+		w.probe("c07-funds-clause-skipped-trusted-exemption")
+		return
+	}
 	stored := map[Hash]*accountant.Vertex{}
 	addrs := map[string]bool{}
 	for h, sv := range s.Stored {
@@ -462,6 +591,7 @@ func (w *World) execStep(i int, s *Step) {
 				return
 			}
 			trx = *w.Trxs[s.Ref]
+			w.probe("c03-duplicate-offered")
 		} else {
 			t, err := w.newTrx(s)
 			if err != nil {
@@ -470,6 +600,12 @@ func (w *World) execStep(i int, s *Step) {
 				return
 			}
 			trx = t
+			if s.Cur >= 1<<62 || s.Sup >= e18u-2 || (s.Sup <= 2 && s.Cur == 0 && s.Sup > 0) {
+				w.probe("c05-boundary-amount-offered")
+			}
+			if s.From < 0 || (s.Cur == 0 && s.Sup == 0 && s.Data == 0) {
+				w.probe("c10-forbidden-proposal-offered")
+			}
 		}
 		w.Trxs[i] = &trx
 		via := s.Via
@@ -503,11 +639,20 @@ func (w *World) execStep(i int, s *Step) {
 		// judge the created vertex only if nothing else touched this ledger meanwhile
 		clean := true
 		var created *accountant.Vertex
+		calls := 0
 		for _, c := range w.AccCalls[mark:] {
 			if c.Node != n.Idx {
 				continue
 			}
-			if c.Op == "AddLeaf" {
+			if c.Op == "AddLeaf" || c.Op == "CreateLeaf" {
+				calls++
+			}
+		}
+		if calls > 1 || (before != nil && len(before.Parked) > 0) || (after != nil && len(after.Parked) > 0) {
+			clean = false
+		}
+		for _, o := range w.pending {
+			if o.node == n.Idx && !o.res.Done {
 				clean = false
 			}
 		}
@@ -565,6 +710,11 @@ func (w *World) execStep(i int, s *Step) {
 				}
 			} else {
 				w.fault("restart")
+				for _, t := range w.Cfg.Trusted {
+					if t < len(w.Nodes) {
+						n.Book.AddTrustedNode(w.Nodes[t].Addr)
+					}
+				}
 			}
 		}
 	case "sleep":
@@ -664,3 +814,53 @@ func shortErr(e string) string {
 }
 
 var _ = bytes.Equal
+
+// snapDiff describes how two snapshots differ (for violation details).
+func snapDiff(a, b *Snap) string {
+	var out []string
+	for h := range a.Live {
+		if _, ok := b.Live[h]; !ok {
+			out = append(out, "live-"+hx(h))
+		}
+	}
+	for h := range b.Live {
+		if _, ok := a.Live[h]; !ok {
+			out = append(out, "live+"+hx(h))
+		}
+	}
+	for h := range a.Stored {
+		if _, ok := b.Stored[h]; !ok {
+			out = append(out, "stored-"+hx(h))
+		}
+	}
+	for h := range b.Stored {
+		if _, ok := a.Stored[h]; !ok {
+			out = append(out, "stored+"+hx(h))
+		}
+	}
+	for k, v := range a.FundsRaw {
+		if w, ok := b.FundsRaw[k]; !ok || !bytes.Equal(v, w) {
+			out = append(out, "funds~"+k[:8])
+		}
+	}
+	for k := range b.FundsRaw {
+		if _, ok := a.FundsRaw[k]; !ok {
+			out = append(out, "funds+"+k[:8])
+		}
+	}
+	for k, v := range a.Index {
+		if w, ok := b.Index[k]; !ok || !bytes.Equal(v, w) {
+			out = append(out, "index~"+hx(k))
+		}
+	}
+	for k := range b.Index {
+		if _, ok := a.Index[k]; !ok {
+			out = append(out, "index+"+hx(k))
+		}
+	}
+	sort.Strings(out)
+	if len(out) > 12 {
+		out = append(out[:12], "...")
+	}
+	return strings.Join(out, " ")
+}
